@@ -157,8 +157,13 @@ def ki_probes(chk):
 
 
 def run(chk):
-    variant, _ = __import__("harness.corr.c05", fromlist=["detect_race"]).detect_race(chk)
+    variant, probe = __import__("harness.corr.c05", fromlist=["detect_race"]).detect_race(chk)
     chk.variants["unit.execute:queue-race"] = variant
+    if variant == "asFound":
+        # the forced schedule (worker reports and exits between the consumer's timeout and its exit test) loses events
+        chk.violation("C11:unit.execute:closing-events-lost-between-timeout-and-exit-test",
+                      "events put between the consumer's queue.Empty and its exit test are dropped: announced scenarios are "
+                      "never closed although the run is not interrupted", probe)
     chk.assumptions += ["CPython queue/thread semantics as for C05", "scenario ids are fresh uuid4 values (uniqueness of "
                         "ids is not part of the model; the theorems are id-agnostic)"]
     chk.proved += ["suite_bracket", "open_before_close", "stream_is_prefix_of_reports", "status_monotone",
